@@ -580,6 +580,14 @@ def treefam():
             branch("b2", els=True, steps=[step("s21")])]),
         step("s2"), step("s3"), step("s4", acts=[act("a4", uses="msg")]),
     ])))
+    out.append(rich_line("mixed_branches_acts", workflow("m", [
+        step("s1", branches=[branch("b1", cond=A, steps=[step("s11")]), branch("b2", els=True)],
+             acts=[act("a1", uses="msg"), act("a2", catches=[catch("e1", [step("c1")])])]),
+        step("s2"),
+    ])))
+    out.append(rich_line("mixed_dup_act", workflow("m", [
+        step("s1", branches=[branch("b1", cond=A)], acts=[act("b1", uses="msg")]),
+    ])))
     out.append(rich_line("dup_step_id", workflow("m", [step("s1"), step("s1")])))
     out.append(rich_line("dup_act_id", workflow("m", [step("s1", acts=[act("a1"), act("a1")])])))
     out.append(rich_line("dup_in_catch", workflow("m", [
